@@ -23,6 +23,8 @@ structure St where
   scaled : Nat := 1
   rows : List (Nat × Nat × String) := []
   scn : Bool := false
+  /-- earlier queries of a multi-query run: (N, W, scaled, rows) -/
+  done : List (Nat × Nat × Nat × List (Nat × Nat × String)) := []
 
 def init : St := {}
 
@@ -39,12 +41,15 @@ def errName : Err → String
   | .missing => "ValueError:missing"
   | .thr => "ValueError:thr"
   | .empty => "ValueError:empty"
+  | .unbound => "UnboundLocalError"
   | .other => "ValueError:other"
 
 abbrev R := RowV SF String
 
 /-- taxonomy + gather rows -> (number of ranks, the `TaxResult`s) -/
 def mkRows (st : St) : Except Err (Nat × List R) := do
+  -- `LineageDB.load(lins=True)` leaves `ranks` unset when the file has a header and no row
+  if st.mode = "lin" ∧ st.tax.isEmpty ∧ !Sm.Gen.taxLinRanksInit then throw .unbound
   let (nranks, tax) ←
     if st.mode = "lin" then loadLinLoop st.keepFull st.keepVer st.force st.tax none []
     else (loadTaxLoop st.keepFull st.keepVer st.force st.tax []).map (fun t => (st.nranks, t))
@@ -74,6 +79,38 @@ def statusName : Status → String
 def build (st : St) (single : Option Nat) : Except Err (List (List (Entry SF String))) := do
   let (nranks, rows) ← mkRows st
   buildSummarized f64 f64Repair (st.N * st.scaled) nranks rows single
+
+/-- every query of the run, in order: the finished ones, then the current one -/
+def buildAll (st : St) : Except Err (List (List (List (Entry SF String)))) :=
+  (st.done ++ [(st.N, st.W, st.scaled, st.rows)]).mapM (fun (n, w, sc, rows) =>
+    build { st with N := n, W := w, scaled := sc, rows := rows } none)
+
+def insertAggDesc (x : String × SF) : List (String × SF) → List (String × SF)
+  | [] => [x]
+  | y :: t => if SF.lt y.2 x.2 then x :: y :: t else y :: insertAggDesc x t
+
+/-- `format_for_krona` on several queries: aggregate, sort by fraction (stable), unclassified last when non-zero -/
+def multiKrona (r : Nat) (qs : List (List (List (Entry SF String)))) : Except Err (List (String × SF)) :=
+  if qs.any (fun ess => !(ess.flatten.any (fun e => e.rank = r))) then .error .rank
+  else
+    let agg := aggregateAt f64 (fun x n => ⟨x.neg, F64.div x.a (ofNat n)⟩) display r (qs.map List.flatten)
+    let sorted := agg.foldl (fun acc x => insertAggDesc x acc) []
+    let un := sorted.filter (fun p => p.1 = "unclassified" && p.2.a.m ≠ 0)
+    .ok (sorted.filter (fun p => p.1 ≠ "unclassified") ++ un)
+
+def insertStr (x : String) : List String → List String
+  | [] => [x]
+  | y :: t => if x < y then x :: y :: t else y :: insertStr x t
+
+/-- `aggregate_by_lineage_at_rank(by_query=True)` + `write_lineage_sample_frac`: one row per lineage (sorted by name,
+unclassified last), one column per query, 0 where the query does not have the lineage -/
+def multiLsum (r : Nat) (qs : List (List (List (Entry SF String)))) : Except Err (List (String × List SF)) :=
+  if qs.any (fun ess => !(ess.flatten.any (fun e => e.rank = r))) then .error .rank
+  else
+    let per := qs.map (fun ess => (ess.flatten.filter (fun e => e.rank = r)).map (fun e => (display e.lin, e.f)))
+    let keys := (per.flatten.map Prod.fst).foldl (fun acc k => if acc.contains k then acc else insertStr k acc) []
+    let keys := keys.filter (· ≠ "unclassified") ++ keys.filter (· = "unclassified")
+    .ok (keys.map (fun k => (k, per.map (fun l => ((l.reverse.lookup k)).getD SF.zero))))
 
 def answer (x : Except Err String) : String :=
   match x with
@@ -168,6 +205,56 @@ def step (st : St) (line : String) : St × String :=
           pure s!"{statusName c.status} {c.rank} {enc (display c.lin)} {c.f.toStr} {c.fw.toStr} {c.bp}"
       (st, answer res)
     | _, _ => bad
+  | ["kreport"] =>
+    if st.mode ≠ "std" then (st, "err ValueError:other")
+    else
+      (st, answer ((build st none).map (fun ess =>
+        " ".intercalate ((kreportRows (st.W * st.scaled) ess).map (fun k =>
+          s!"{k.pct}|{k.bpc}|{k.bpa}|{k.code}|{enc k.name}")))))
+  | ["bioboxes"] =>
+    if st.mode ≠ "std" then bad
+    else
+      (st, answer ((build st none).map (fun ess =>
+        " ".intercalate ((ess.flatten.filter (fun e => !isUnclassified e)).map (fun e =>
+          s!"{Sm.Gen.taxNcbiRanks.getD e.rank "?"}|{enc (display e.lin)}|{fmtDecStr (timesHundred e.fw) 2}")))))
+  | ["human", r] =>
+    match nat? r with
+    | some r =>
+      (st, answer ((build st none).map (fun ess =>
+        let es := ess.flatten.filter (fun e => e.rank = r)
+        -- `display_rank_results.sort(key=lambda res: -res.f_weighted_at_rank)`: stable, by weighted fraction
+        let byFw := es.foldl (fun acc x =>
+          let rec ins (l : List (Entry SF String)) : List (Entry SF String) :=
+            match l with
+            | [] => [x]
+            | y :: t => if SF.lt y.fw x.fw then x :: y :: t else y :: ins t
+          ins acc) []
+        " ".intercalate (byFw.map (fun e => s!"{enc (display e.lin)}|{fmtDecStr (timesHundred e.fw) 1}")))))
+    | none => bad
+  | ["nextq"] =>
+    if st.N = 0 then bad
+    else ({ st with done := st.done ++ [(st.N, st.W, st.scaled, st.rows)], N := 0, W := 0, scaled := 1, rows := [],
+                    scn := false }, "ok")
+  | ["mkrona", r] =>
+    match nat? r with
+    | some r =>
+      (st, answer (do
+        let qs ← buildAll st
+        let rows ← multiKrona r qs
+        pure (" ".intercalate (rows.map (fun p => s!"{enc p.1}|{p.2.toStr}")))))
+    | none => bad
+  | ["mlsum", r] =>
+    match nat? r with
+    | some r =>
+      (st, answer (do
+        let qs ← buildAll st
+        let rows ← multiLsum r qs
+        pure (" ".intercalate (rows.map (fun p => enc p.1 ++ "|" ++ "|".intercalate (p.2.map SF.toStr))))))
+    | none => bad
+  | ["mcsv"] =>
+    (st, answer ((buildAll st).map (fun qs =>
+      " ".intercalate (((qs.zipIdx).map (fun (ess, i) =>
+        " ".intercalate (((ess.map (writerOrder f64)).flatten).map (fun e => s!"{i}:{showEntry e}")))).filter (· ≠ "")))))
   | "fa" :: ws => (st, ratOp ws (fun x y => SF.ofF (fadd x y)))
   | "fs" :: ws => (st, ratOp ws SF.subF)
   | "fm" :: ws => (st, ratOp ws (fun x y => SF.ofF (fmul x y)))
